@@ -31,7 +31,7 @@ def run(ctx) -> None:
         ctx.rule(r, d)
     cv = prog.func(f"{UNITS}:compare_values")
     ctx.analysed(cv)
-    matches = [n for n in walk_no_nested(cv.node) if isinstance(n, ast.Match) and norm(n.subject) == "op"]
+    matches = [n for n in walk_no_nested(cv.node) if isinstance(n, ast.Match) and norm(n.subject) == cv.node.args.args[0].arg]
     if len(matches) != 1:
         raise AnchorError("compare_values: `match op` not found")
     # the two operand locals, by role: assigned (somewhere) from an expression that mentions the first / second value
